@@ -1,6 +1,7 @@
 import SamplyModel.Lemmas.FileCreationRetry
 import SamplyModel.Lemmas.DownloadWrite
 import SamplyModel.Lemmas.FileCreationAsync
+import SamplyModel.Lemmas.FileCreationRepaired
 import SamplyModel.Lemmas.DownloadCompose
 import SamplyModel.Lemmas.FileCreationOnce
 /-!
@@ -366,22 +367,98 @@ def C16_stragglerSchedule : List FCA.Act :=
    .base (.step 2), .base (.step 2), .base (.step 2), .base (.step 2),   -- 2: 30, 40, 50, flush
    .base (.step 2), .base (.step 2), .base (.step 2)]                     -- 2: rename, close lock, unlink lock
 
-/-- **Finding (C16-cancel-inflight-write).** In the code as it is (`joinOnDrop = false`) the final path is
-NOT stable and NOT atomic under cancellation: after creator 2 has returned "created" with its complete
-payload `[30, 40, 50]` at the final path, the write that the cancelled creator 0 left in the blocking pool
-is executed on the published inode; the final path then holds `[1, 40, 50]`, nobody's payload. (The
-harness reproduces exactly this on the real `.symindex` call site: op `cancelwrite`.) -/
-theorem C16_cancel_with_write_in_flight_breaks_atomicity :
-    ((FCA.run false C16_payload FCA.State.init C16_stragglerSchedule).map fun s =>
+/-- **Repaired finding C16-cancel-inflight-write: counterexample for the code BEFORE the repair**
+(`FCA.nextLegacy`: no drop guard, `dest.part` stays after a cancellation inside the callback). After creator
+2 has returned "created" with its complete payload `[30, 40, 50]` at the final path, the write that the
+cancelled creator 0 left in the blocking pool is executed on the published inode; the final path then
+holds `[1, 40, 50]`, nobody's payload. -/
+theorem C16_legacy_counterexample_cancel_inflight_write :
+    ((FCA.runLegacy C16_payload FCA.State.init C16_stragglerSchedule).map fun s =>
         (s.base.pc 2, s.destDisk, s.inflight.length)) = some (.doneCreated, some [30, 40, 50], 1) ∧
-    ((FCA.run false C16_payload FCA.State.init (C16_stragglerSchedule ++ [.land 0])).map fun s =>
+    ((FCA.runLegacy C16_payload FCA.State.init (C16_stragglerSchedule ++ [.land 0])).map fun s =>
         (s.base.pc 2, s.destDisk)) = some (.doneCreated, some [1, 40, 50]) := by
   decide
 
-/-- with `joinOnDrop = true` the same cancellation leaves nothing queued: the schedule ends with the complete
-payload at the final path and there is no write left to execute -/
-example : ((FCA.run true C16_payload FCA.State.init C16_stragglerSchedule).map fun s =>
-    (s.destDisk, s.inflight.length)) = some (some [30, 40, 50], 0) := by decide
+/-- with `joinOnDrop = true` the same cancellation leaves nothing queued -/
+example : ((FCA.run true C16_payload FCA.State.init (C16_stragglerSchedule.take 6)).map fun s =>
+    (s.base.pc 0, s.inflight.length)) = some (.dead, 0) := by decide
+
+/-! ### The repaired code (`FCA.next false` over the repaired `FC.cancelP`, reachability `FCA.ReachableR`)
+
+A future dropped inside the write callback now unlinks `dest.part` before `locked_file` is closed. Queued
+writes are NOT waited for: they may land at any later time — on an inode that no name refers to any more
+and that no later creator can obtain, because `open(.part, O_CREAT|O_TRUNC)` of an absent name allocates a
+fresh inode (`nextInode`). `FCA.ReachableR` = every schedule of any number of creators and of the blocking
+pool, all faults, kills at every program point, cancellations at all three await points; its only side
+condition (`FCA.allowedR`): the ignored `remove_file(.part)` of the ERROR path does not fail while that
+creator still has a write queued. -/
+
+/-- **Orphaned queued writes are harmless.** In every reachable state of the repaired system: the bytes really
+at the final path are the protocol model's; a callback that returned `Ok` has its complete payload in the temp
+file; every creator has at most one write queued; and a queued write whose owner is no longer inside the
+critical section targets an inode that neither `dest.part` nor the final path refers to. -/
+theorem C16_async_repaired_disk_is_model (pl : Pid → Content) (s : FCA.State)
+    (h : FCA.ReachableR pl s) :
+    s.destDisk = s.base.destContent ∧
+    (∀ p i, s.base.pc p = .wroteOk i → s.partDisk = some (pl p)) ∧
+    (s.inflight.map (·.owner)).Nodup ∧
+    (∀ w, w ∈ s.inflight → inCS (s.base.pc w.owner) = false →
+      s.base.part ≠ some w.inode ∧ s.base.dest ≠ some w.inode) := by
+  have hB := FCA.binv_reachable h
+  have hI := inv_reachable (FCA.base_reachable (FCA.reachableR_reachable h))
+  refine ⟨?_, ?_, hB.b5, ?_⟩
+  · cases hd : s.base.dest with
+    | none => simp [FCA.State.destDisk, State.destContent, hd]
+    | some j => simp [FCA.State.destDisk, State.destContent, hd, hB.b4 j hd]
+  · intro p i hp
+    obtain ⟨j, hj, _⟩ := hI.wrote p i hp
+    simp [FCA.State.partDisk, hj, (hB.b3 p i hp).2 j hj]
+  · intro w hw hcs
+    rcases hB.b1 w hw with h1 | h1 | ⟨_, h2, h3⟩
+    · obtain ⟨i, j, k, hh⟩ := FCA.isWritingPC_eq h1
+      rw [hh] at hcs; simp [inCS] at hcs
+    · have := FCA.isFailedPC_inCS h1
+      rw [hcs] at this; simp at this
+    · exact ⟨h2, h3⟩
+
+/-- **Atomicity of the repaired code, real bytes, every pool schedule**: the final path does not exist or holds
+the complete payload of the one creator that renamed (at most one winner), -/
+theorem C16_async_repaired_atomic (pl : Pid → Content) (s : FCA.State) (h : FCA.ReachableR pl s) :
+    ((s.destDisk = none ∧ s.base.winners = []) ∨
+      ∃ w, s.destDisk = some (pl w) ∧ s.base.winners = [w]) ∧ s.base.winners.length ≤ 1 := by
+  have hbase := FCA.base_reachable (FCA.reachableR_reachable h)
+  rw [(C16_async_repaired_disk_is_model pl s h).1]
+  exact ⟨C16_atomic pl s.base hbase, (C16_at_most_once pl s.base hbase).1⟩
+
+/-- every success sees the complete file in the real bytes, -/
+theorem C16_async_repaired_success_sees_complete (pl : Pid → Content) (s : FCA.State)
+    (h : FCA.ReachableR pl s) (p : Pid) :
+    (s.base.pc p = .doneCreated → s.destDisk = some (pl p)) ∧
+    (s.base.pc p = .doneExisting ∨ s.base.pc p = .exUnlinked → ∃ w, s.destDisk = some (pl w)) := by
+  rw [(C16_async_repaired_disk_is_model pl s h).1]
+  exact C16_success_sees_complete pl s.base (FCA.base_reachable (FCA.reachableR_reachable h)) p
+
+/-- and no later transition — of a creator or of the blocking pool, in particular no `land` of a write that a
+cancelled creator left behind — changes a complete final file. This is the statement that
+`C16_legacy_counterexample_cancel_inflight_write` refutes for the code before the repair. -/
+theorem C16_async_repaired_dest_stable (pl : Pid → Content) (s s' : FCA.State) (a : FCA.Act)
+    (h : FCA.ReachableR pl s) (hal : FCA.allowedR s a) (hn : FCA.next false pl s a = some s') (c : Content)
+    (hc : s.destDisk = some c) : s'.destDisk = some c := by
+  have h' : FCA.ReachableR pl s' := FCA.ReachableR.step a h hal hn
+  rw [(C16_async_repaired_disk_is_model pl s h).1] at hc
+  rw [(C16_async_repaired_disk_is_model pl s' h').1]
+  rcases FCA.next_base hn with hb | ⟨a', hb⟩
+  · rw [hb]; exact hc
+  · exact C16_dest_stable pl s.base s'.base a' (FCA.base_reachable (FCA.reachableR_reachable h)) hb c hc
+
+/-- non-vacuity of `ReachableR`: creator 0 is cancelled inside its callback with its write still queued; the
+name `dest.part` is gone, the write is an orphan -/
+example : ∃ s, FCA.ReachableR C16_payload s ∧ s.base.pc 0 = .dead ∧ s.base.part = none ∧
+    s.inflight = [⟨0, 1, 0, 1⟩] := by
+  have step := @FCA.ReachableR.step C16_payload
+  refine ⟨_, step (.base (.cancel 0)) (step (.base (.step 0)) (step (.base (.step 0))
+    (step (.base (.step 0)) (step (.base (.step 0)) (step (.base (.step 0)) FCA.ReachableR.init
+    trivial rfl) trivial rfl) trivial rfl) trivial rfl) trivial rfl) trivial rfl, by decide, by decide, by decide⟩
 
 /-- **Deferred writes are harmless when a dropped callback waits for its write** (`joinOnDrop = true`: a
 callback that writes synchronously through the `std::fs::File` it is given, or one that joins / flushes its
@@ -449,7 +526,7 @@ theorem C16_async_as_is_atomic_unless_write_in_flight_at_drop (pl : Pid → Cont
    fun p => (C16_async_join_on_drop_success_sees_complete pl s h' p).1⟩
 
 /-- non-vacuity of `ReachableQD`: a cancellation inside the callback AFTER the queued write has been executed -/
-example : ∃ s, FCA.ReachableQD C16_payload s ∧ s.base.pc 0 = .dead ∧ s.partDisk = some [1] ∧ s.inflight = [] := by
+example : ∃ s, FCA.ReachableQD C16_payload s ∧ s.base.pc 0 = .dead ∧ s.base.part = none ∧ s.inflight = [] := by
   have step := @FCA.ReachableQD.step C16_payload
   refine ⟨_, step (.base (.cancel 0)) (step (.land 0) (step (.base (.step 0)) (step (.base (.step 0))
     (step (.base (.step 0)) (step (.base (.step 0)) (step (.base (.step 0)) FCA.ReachableQD.init
